@@ -271,6 +271,11 @@ class Engine:
     def ground_axioms(self):
         """facts that depend on the set of constants created so far"""
         ax = list(self.axioms)
+        # only None compares equal to None (trusted: user __eq__ methods respect this)
+        x = z3.Const("x!eqnone", self.V)
+        none = self.const(None)
+        ax.append(z3.ForAll([x], self.pyeq(x, none) == (x == none), patterns=[self.pyeq(x, none)]))
+        ax.append(z3.ForAll([x], self.pyeq(none, x) == (x == none), patterns=[self.pyeq(none, x)]))
         cs = list(self.consts.values())
         if len(cs) > 1:
             ax.append(z3.Distinct(*cs))
@@ -552,6 +557,7 @@ class Executor:
         self.unresolved = []  # (name, lineno) loaded names that resolve nowhere (C17)
         self.attr_fail = []  # (expr text, lineno) attribute walks on concrete objects that fail
         self.nonraising = set()  # callee keys assumed not to raise
+        self.assume_hasattr = False  # precondition: receivers conform to their annotations
         self.trace_calls = []
 
     # ---------------- entry
@@ -866,11 +872,12 @@ class Executor:
             if r is not None:
                 return r
         t = eng.term(base)
-        eng.attr_names.add(name)
-        ctx.add_raise(
-            z3.Not(eng.hasattr_(eng.typeof(t), eng.const(name))),
-            Exc(Ob(AttributeError), [Ob(name)], origin=f"attr {name}"),
-        )
+        if not self.assume_hasattr:
+            eng.attr_names.add(name)
+            ctx.add_raise(
+                z3.Not(eng.hasattr_(eng.typeof(t), eng.const(name))),
+                Exc(Ob(AttributeError), [Ob(name)], origin=f"attr {name}"),
+            )
         if name == "__class__":
             return Tm(eng.typeof(t))
         f = eng.func(f"attr!{name}", eng.V, eng.V)
@@ -1213,11 +1220,12 @@ class Executor:
         if isinstance(recv, (LL, Comp, KeySet)):
             raise NotInSubset(f"method {name} on a local container", node)
         t = eng.term(recv)
-        eng.attr_names.add(name)
-        ctx.add_raise(
-            z3.Not(eng.hasattr_(eng.typeof(t), eng.const(name))),
-            Exc(Ob(AttributeError), [Ob(name)], origin=f"method {name}"),
-        )
+        if not self.assume_hasattr:
+            eng.attr_names.add(name)
+            ctx.add_raise(
+                z3.Not(eng.hasattr_(eng.typeof(t), eng.const(name))),
+                Exc(Ob(AttributeError), [Ob(name)], origin=f"method {name}"),
+            )
         if name == "get" and 1 <= len(args) <= 2 and not kw:
             self.eng.trusted.add("dict.get model: get(k, default) = dval(d,k) if haskey(d,k) else default (receiver is a dict whenever it has .get, by precondition)")
             k = eng.term(args[0])
